@@ -540,6 +540,7 @@ type Clause struct {
 	Kind  string   // requires ensures modifies invariant decreases loopdecreases assume ...
 	Loop  int      // for loop clauses
 	Props []string // clause-level property tags (default: item's)
+	Tagged bool    // the clause carries its own [tags]
 	Text  string
 	Expr  *SExpr
 	Lhs   *SExpr // for set clauses
@@ -911,6 +912,7 @@ func LoadContractFile(path string, trusted bool) (*ContractSet, error) {
 					tags, r2 := parseTags(r)
 					if tags != nil {
 						cur.Props = tags
+						cur.Tagged = len(tags) > 0
 						r = r2
 					}
 					if w == "loop" {
@@ -939,6 +941,8 @@ func LoadContractFile(path string, trusted bool) (*ContractSet, error) {
 							tags, r2 := parseTags(r)
 							if tags != nil {
 								cur.Props = tags
+								cur.Tagged = len(tags) > 0
+						cur.Tagged = len(tags) > 0
 								r = r2
 							}
 						}
